@@ -11,9 +11,9 @@ from mc.core import Check, h
 
 # ---------------------------------------------------------------- alphabets
 TEXT = ["a", "<", ">", "&", '"', "'", ";", "#", "x", "0", " ", "\n", "\x00",
-        "%", "+", "/", "=", "?", "\u00e9", "\uffff", "\U0001F600", "&amp;"]
+        "%", "+", "/", "=", "?", "\u00e9", "\uffff", "\U0001F600", "&amp;", "\ufeff"]
 BYTES = [0x00, 0x20, 0x25, 0x2B, 0x2F, 0x41, 0x7F, 0x80, 0xC3, 0xA9, 0xFF,
-         0xE2, 0x82, 0xED, 0xA0, 0xC0, 0xF0, 0x9F]
+         0xE2, 0x82, 0xED, 0xA0, 0xC0, 0xF0, 0x9F, 0xEF, 0xBB, 0xBF]
 URLDEC = ["a", "0", "F", "%", "+", "/", " ", "\u00e9", "\U0001F600",
           "%41", "%c3", "%A9", "%2B", "%20", "%00", "%FF"]
 QS = [b"a", b"b", b"=", b"&", b"+", b"%", b"%41", b"%26", b"%3D", b"%ff", b"%2",
@@ -619,8 +619,8 @@ class C21(Check):
     id = "C21"
     level = "exploration"
     design_ref = "DESIGN.md §2 C21"
-    rule = ("every string <= k symbols over a per-mechanism alphabet (text: 22 symbols incl. all "
-            "HTML specials, NUL, U+FFFF, astral, '&amp;' token; bytes: 18 values incl. UTF-8 lead/"
+    rule = ("every string <= k symbols over a per-mechanism alphabet (text: 23 symbols incl. U+FEFF, all "
+            "HTML specials, NUL, U+FFFF, astral, '&amp;' token; bytes: 21 values incl. the BOM bytes, UTF-8 lead/"
             "continuation/overlong/surrogate bytes; URL-decoding: 16 symbols incl. %HH tokens; "
             "query strings: 17 byte tokens) and every JSON tree of depth <= 2 / width <= 2 over "
             "{None,True,False,0,-1,1.5, strings over {a < / \\ \" é NUL U+2028 astral & </script>}}; "
